@@ -11,6 +11,7 @@ From SV Require Import Model.Frame.
 From SV Require Import Model.Tiling.
 From SV Require Import Model.Validate.
 From SV Require Import Model.PtSolution.
+From SV Require Import Model.Kang.
 Require Extraction.
 From Coq Require Import ExtrOcamlBasic.
 Extraction Language OCaml.
@@ -20,4 +21,5 @@ Extraction "model.ml"
   delay0 energy0 src_dist patch_hist patchwise mono_of mono direct_val direct_bin norm_weights
   from_scattering from_directional rot rotT wall_dirs create_patches total_number_of_patches
   tiling_defined process kang_patches patch_center patch_area construct sphere_tangent on_sphere
-  angle_at angle_sum excess poly_area pt_solution s2p_energy s2p_dist p2r_factor.
+  angle_at angle_sum excess poly_area pt_solution s2p_energy s2p_dist p2r_factor kang_ffs
+  kang_run kang_resp kN kdelay0 ke0 kinit_with korders_from kpdist kdelay kff_offset.
